@@ -59,6 +59,9 @@ inline void aspects_yaml(std::string &s, const std::vector<Aspect> &as) {
 }
 inline std::string track_yaml(const World &w) {
 	std::string s = "# generated\nboards:\n";
+	bool any = false;
+	for (auto &b : w.boards) if (!(b.points_board.empty() && b.points_dcc.empty() && b.signals_board.empty() && b.signals_dcc.empty() && b.periphs.empty() && b.segs.empty() && b.revs.empty())) any = true;
+	if (!any) return "# generated\nboards: []\n";
 	for (auto &b : w.boards) {
 		if (b.points_board.empty() && b.points_dcc.empty() && b.signals_board.empty() && b.signals_dcc.empty() && b.periphs.empty() && b.segs.empty() && b.revs.empty()) continue;
 		s += "  - id: " + b.id + "\n";
@@ -106,6 +109,7 @@ inline std::string track_yaml(const World &w) {
 }
 inline std::string train_yaml(const World &w) {
 	std::string s = "# generated\ntrains:\n";
+	if (w.trains.empty()) return "# generated\ntrains: []\n";
 	for (auto &t : w.trains) {
 		s += "  - id: " + t.id + "\n    dcc-address: " + hx2(t.addrh, t.addrl) + "\n    dcc-speed-steps: " + std::to_string(t.steps) + "\n";
 		if (!t.calibration.empty()) { s += "    calibration:\n"; for (int c : t.calibration) s += "      - " + std::to_string(c) + "\n"; }
@@ -186,8 +190,18 @@ inline World gen_world(Rng &r, const GenOpts &o) {
 		if (cls & 0x10) {
 			auto mkd = [&](const std::string &id) {
 				DccAcc a; a.id = id; new_dcc(a.addrl, a.addrh); a.extended = (uint8_t) r.below(2);
-				int na = (int) r.range(1, 3);
-				for (int q = 0; q < na; q++) { DccAspect as; as.id = "d" + std::to_string(q); int np = (int) r.range(1, 3); for (int z = 0; z < np; z++) as.ports.push_back({(uint8_t) r.range(0, 31), (uint8_t) r.below(2)}); a.aspects.push_back(as); }
+				// all aspects of one accessory drive the same ports with different value vectors (the parser rejects an aspect whose
+				// port/value pairs are contained in another aspect's)
+				int np = (int) r.range(1, 3);
+				std::vector<int> ports; while ((int) ports.size() < np) { int pt = (int) r.range(0, 31); if (std::find(ports.begin(), ports.end(), pt) == ports.end()) ports.push_back(pt); }
+				int na = (int) r.range(1, std::min(3, 1 << np));
+				std::set<int> vecs;
+				for (int q = 0; q < na; q++) {
+					int v; do { v = (int) r.below(1u << np); } while (vecs.count(v)); vecs.insert(v);
+					DccAspect as; as.id = "d" + std::to_string(q);
+					for (int z = 0; z < np; z++) as.ports.push_back({(uint8_t) ports[(size_t) z], (uint8_t) ((v >> z) & 1)});
+					a.aspects.push_back(as);
+				}
 				if (o.want_initial && r.chance(500)) a.initial = a.aspects[r.below(a.aspects.size())].id;
 				return a;
 			};
@@ -215,7 +229,8 @@ inline World gen_world(Rng &r, const GenOpts &o) {
 		static const int steps[] = {14, 28, 126}; t.steps = steps[r.below(3)];
 		if (r.chance(500)) { int v = 2; for (int k = 0; k < 9; k++) { v += (int) r.range(1, 13); t.calibration.push_back(std::min(v, 126)); } }
 		std::set<int> bits;
-		for (int k = 0, n = (int) r.below(5); k < n; k++) { TrainPeriph p; p.id = "f" + std::to_string(k); int bt; do { bt = (int) r.range(0, 31); } while (bits.count(bt)); bits.insert(bt); p.bit = (uint8_t) bt; if (o.want_initial && r.chance(500)) p.initial = (int) r.below(2); t.periphs.push_back(p); }
+		// (the train parser accepts a calibration block only when a peripherals block follows)
+		for (int k = 0, n = std::max<int>((int) r.below(5), t.calibration.empty() ? 0 : 1); k < n; k++) { TrainPeriph p; p.id = "f" + std::to_string(k); int bt; do { bt = (int) r.range(0, 31); } while (bits.count(bt)); bits.insert(bt); p.bit = (uint8_t) bt; if (o.want_initial && r.chance(500)) p.initial = (int) r.below(2); t.periphs.push_back(p); }
 		w.trains.push_back(t);
 	}
 	return w;
@@ -309,9 +324,12 @@ inline void install(J &plan, const World &w, Rng &r) {
 	plan.set("world", to_json(w));
 }
 
+// starvation of a library thread must not cover the start-up handshake (its 250 ms probe window is a legitimate timeout)
+inline void starve_after_startup(J &sched, Rng &r) { if (sched.geti("policy") == sim::P_STARVE) sched.set("starve_from_ms", (int) r.range(4200, 6000)); }
+
 inline J normal_session(int cfg_idx, int flush_ms) {
 	J se = J::obj(); J st = J::obj();
-	st.set("mode", "pointer"); st.set("flush_ms", flush_ms); st.set("config", cfg_idx);
+	st.set("mode", "pointer"); st.set("flush_ms", flush_ms); st.set("config", cfg_idx); st.set("expect", 0);
 	se.set("start", st); se.set("phases", J::arr()); se.set("stop", true);
 	return se;
 }
